@@ -2,3 +2,4 @@ SPECIFICATION Spec
 CONSTANTS
   MaxLen = 2
 INVARIANT Emit
+INVARIANT EmitWrap
